@@ -13,6 +13,7 @@ import (
 
 type c14Params struct {
 	Members int `json:"members"`
+	MaxLen  int `json:"max_len,omitempty"` // longest recipient list enumerated completely (default 3)
 }
 
 func init() {
@@ -63,6 +64,16 @@ func init() {
 				lists = append(lists, []uint32{a, b})
 				for _, c := range alpha {
 					lists = append(lists, []uint32{a, b, c})
+					if p.MaxLen >= 4 {
+						for _, d := range alpha {
+							lists = append(lists, []uint32{a, b, c, d})
+							if p.MaxLen >= 5 {
+								for _, e := range alpha {
+									lists = append(lists, []uint32{a, b, c, d, e})
+								}
+							}
+						}
+					}
 				}
 			}
 		}
@@ -117,7 +128,11 @@ func init() {
 	check.RegisterProp("C14", func(tier string) []check.Job {
 		var jobs []check.Job
 		for m := 1; m <= 4; m++ {
-			p, _ := json.Marshal(c14Params{Members: m})
+			ml := 3
+			if tier == "thorough" {
+				ml = 5
+			}
+			p, _ := json.Marshal(c14Params{Members: m, MaxLen: ml})
 			jobs = append(jobs, check.Job{Kind: "c14", Name: fmt.Sprintf("IN:custom-%dmembers", m), Params: p})
 		}
 		d := 5
@@ -127,7 +142,7 @@ func init() {
 		jobs = append(jobs, s1job("two-sessions", d-2, []string{"C14"}, 4, 300))
 		return jobs
 	}, check.PropInfo{
-		Rule:        "IN: full product of recipient lists (all ordered lists of length <=3 over {every member incl. the sender, an unknown id, an id valid only in another session}, plus a 600-entry list) x body lengths {0,1,10236..10244} x byte patterns {zeros, 0xff, ramp, protobuf-looking}, in sessions of 1-4 members with a second session alive; every case executed on the real server and compared with the model (recipients = named ∩ members − sender, once each; body identical; TOO_LARGE iff > 10240)",
+		Rule:        "IN: full product of recipient lists (all ordered lists of length <=3 (thorough: <=5) over {every member incl. the sender, an unknown id, an id valid only in another session}, plus a 600-entry list) x body lengths {0,1,10236..10244} x byte patterns {zeros, 0xff, ramp, protobuf-looking}, in sessions of 1-4 members with a second session alive; every case executed on the real server and compared with the model (recipients = named ∩ members − sender, once each; body identical; TOO_LARGE iff > 10240)",
 		Assumptions: s1Assumptions,
 	})
 
@@ -161,9 +176,9 @@ func init() {
 		}
 		if tier == "thorough" {
 			for _, f := range allFlags {
-				jobs = append(jobs, s1flagjob("entities", 5, []string{f}), s1flagjob("components", 4, []string{f}))
+				jobs = append(jobs, s1flagjob("entities", 6, []string{f}), s1flagjob("components", 5, []string{f}))
 			}
-			jobs = append(jobs, s1flagjob("entities", 5, allFlags), s1flagjob("components", 4, allFlags))
+			jobs = append(jobs, s1flagjob("entities", 6, allFlags), s1flagjob("components", 5, allFlags), s1flagjob("modules", 5, allFlags))
 		} else {
 			jobs = append(jobs, s1flagjob("entities", 5, allFlags), s1flagjob("components", 3, allFlags), s1flagjob("entities", 4, []string{"DISABLE_ENTITY_DELETE_BROADCAST"}))
 		}
